@@ -6,6 +6,8 @@ _get_cursor_vertical_diff_once.
     of every `extra` / `trailing` character is a selector enumerated by the solver, the character
     itself is symbolic inside its class; row and column digits are symbolic; a symbolic fault
     schedule makes up to two reads raise OSError first.
+(c) render_diff: enter / render with a symbolic cursor row (rows scrolled off the top included) / the content moves
+    k rows / get_cursor_vertical_diff, on the terminal model of C07: the baseline is whatever the render really left.
 (b) conservation: pure integers.  top_usable_row >= 0, _last_cursor_row (or None) and the rows the
     terminal reports are symbolic; get_cursor_position is stubbed to return them and, by a
     selector, to re-enter get_cursor_vertical_diff first (the SIGWINCH case).
@@ -23,7 +25,8 @@ BOUNDS = ("(a) extra: 0..2 characters (thorough 3) over 8 classes {ESC, '[', 0x9
           "symbolic within the class, not containing a complete look-alike report; CSI 7-bit and 8-bit; row 1..3 digits, "
           "column 1..2 digits (4 literal reports incl. leading zeros: 1;1 120;45 07;9 9;10); trailing 0..1 characters; up to 2 reads fail "
           "with OSError at symbolic positions; with and without extra_bytes_callback. (b) top_usable_row >= 0, last row "
-          "None or any int >= 0, up to 3 reported rows with |movement| <= 12 each, re-entrant call during any query")
+          "None or any int >= 0, up to 3 reported rows with |movement| <= 12 each, re-entrant call during any query. (c) terminals 2x2, 3x2 "
+          "(thorough + 4x2, 3x3), start row any, arrays of height 0..h+2 (quick: seeded sample), cursor row any array row, movement -2..2")
 STUBS = ["scripted in_stream (read(1), encoding); StringIO out_stream; the window object is built once outside the tracer "
          "(blessed.Terminal construction is not the subject) and its fields are reset on every path",
          "(b) get_cursor_position replaced by a stub returning the symbolic rows (its parsing is part (a))",
@@ -56,6 +59,13 @@ def instances(tier, seed):
                         continue
                     out.append({"name": "parse-csi%s-%s-v%d-%03d" % (csi, "cb" if cb else "nocb", vi, i), "fn": "parse", "timeout": T, "cost": 3,
                                 "params": {"csi": csi, "cb": cb, "lo": i, "hi": i + per, "maxextra": maxextra, "variant": vi, "quickwords": tier == "quick"}})
+    # (c) the baseline really left by a render: enter, render (cursor row symbolic, rows scrolled off the top included), the
+    # content moves k rows, get_cursor_vertical_diff - against the terminal model of C07 (which answers the cursor query)
+    for (h, w) in ((2, 2), (3, 2)) if tier == "quick" else ((2, 2), (3, 2), (4, 2), (3, 3)):
+        for r0 in range(h):
+            out.append({"name": "renderdiff-%dx%d-r%d" % (h, w, r0), "fn": "render_diff", "timeout": T, "cost": 4,
+                        "params": {"h": h, "w": w, "r0": r0, "sb": 0, "A": 0, "keep": False, "hide": False, "cc": 0, "seed": seed,
+                                   "limit": 12 if tier == "quick" else 100000, "rd": True}})
     for nq in (1, 2, 3):
         for last in ("none", "int"):
             out.append({"name": "diff-q%d-%s" % (nq, last), "fn": "diff", "timeout": T, "cost": 4,
@@ -68,6 +78,8 @@ VARIANTS = [("1", "1", (), None), ("120", "45", (0,), "D"), ("07", "9", (2, 5), 
 
 
 def witness_instances(fn, lst, tier):
+    if fn == "render_diff":
+        return lst[-1:]
     if fn == "diff":
         return [i for i in lst if i["params"]["nq"] == 2][:1]
     return [i for i in lst if i["params"]["cb"] and i["params"]["variant"] == 1 and i["params"]["lo"] == 25][:1]
@@ -94,6 +106,10 @@ def setup(params):
     import os
     os.environ.setdefault("TERM", "xterm-256color")
     from curtsies.window import CursorAwareWindow
+    if params.get("rd"):
+        from chx.harness import c07
+        c07.setup(params)
+        return
     if "lo" in params:
         WORDS[:] = _all_words(params["maxextra"])[params["lo"]:params["hi"]]
     WIN[:] = [CursorAwareWindow(out_stream=io.StringIO(), in_stream=io.StringIO(), hide_cursor=False)]
@@ -243,6 +259,122 @@ def diff(top: int, last: int, q0: int, q1: int, q2: int, re0: int, re1: int, re2
     return verdict(ok, moved != 0 and used >= 2)
 
 
+RD_TEXT = "abcdefghijklmnop"
+
+
+def _rd_n():
+    from chx.harness import c07
+    return len(c07.CASES)
+
+
+def render_diff(s1: int, s2: int, cr: int, k: int) -> bool:
+    """
+    pre: H.sel_ok(_rd_n(), s1, s2)
+    pre: 0 <= cr <= 6 and -2 <= k <= 2
+    post: _
+    """
+    from chx.harness import c07
+    h, w, r0 = P["h"], P["w"], P["r0"]
+    spec = H.pick(c07.CASES, s1, s2)
+    if cr >= max(len(spec), 1):
+        return True
+    win, rec, inp = c07.ENV["win"], c07.ENV["rec"], c07.ENV["inp"]
+    model, _ = c07._initial(h, w, r0, 0)
+    rec.model = model
+    inp.model = model
+    c07.SIZE[0], c07.SIZE[1] = h, w
+    win._last_lines_by_row = {}
+    win._last_rendered_width = None
+    win._last_rendered_height = None
+    win._last_cursor_row = None
+    win._last_cursor_column = None
+    win.in_get_cursor_diff = False
+    win.another_sigwinch = False
+    win.__enter__()
+    rows = c07._mk_rows(spec, RD_TEXT)
+    win.render_to_terminal(rows, (cr, 0))
+    row_after = model.r
+    top_before = win.top_usable_row
+    newr = row_after + k
+    if not (0 <= newr < h):
+        return True
+    model.cup(newr, model.c)          # the content, and the cursor with it, moved k rows
+    ret = win.get_cursor_vertical_diff()
+    ok = (win.top_usable_row - top_before) + ret == k and win._last_cursor_row == newr and win.top_usable_row >= 0
+    return verdict(ok, k != 0 and len(spec) >= 2)
+
+
+def _concrete_render_diff(params, args):
+    import os
+    import pyte
+    import blessed
+    import curtsies.window as cw
+    from chx.harness import c07
+    s1, s2, cr, k = args
+    h, w, r0 = params["h"], params["w"], params["r0"]
+    spec = H.pick_concrete(c07._b_cases(), s1, s2)
+    if cr >= max(len(spec), 1):
+        return {"ok": True, "observed": "not a case", "call": "-"}
+    scr = pyte.Screen(w, h)
+    st = pyte.Stream(scr)
+    out = io.StringIO()
+
+    class In:
+        encoding = "utf8"
+
+        def __init__(self):
+            self.buf = []
+
+        def read(self, n):
+            pump()
+            return self.buf.pop(0) if self.buf else ""
+
+    inp = In()
+
+    def pump():
+        data = out.getvalue()
+        out.seek(0)
+        out.truncate()
+        while "\x1b[6n" in data:
+            before, _, data = data.partition("\x1b[6n")
+            st.feed(before)
+            inp.buf.extend("\x1b[%d;%dR" % (scr.cursor.y + 1, scr.cursor.x + 1))
+        st.feed(data)
+
+    size = [h, w]
+
+    class SizedTerminal(blessed.Terminal):
+        height = property(lambda self: size[0])
+        width = property(lambda self: size[1])
+
+    orig = cw.Cbreak
+    cw.Cbreak = c07.NoCbreak
+    try:
+        win = cw.CursorAwareWindow(out_stream=out, in_stream=inp, keep_last_line=False, hide_cursor=False)
+        win.t = SizedTerminal(stream=out, force_styling=True)
+        for r in range(r0):
+            st.feed("\x1b[%d;1H#" % (r + 1))
+        st.feed("\x1b[%d;1H" % (r0 + 1))
+        win.__enter__()
+        rows = c07._mk_rows(spec, RD_TEXT)
+        win.render_to_terminal(rows, (cr, 0))
+        pump()
+        row_after = scr.cursor.y
+        top_before = win.top_usable_row
+        newr = row_after + k
+        if not (0 <= newr < h):
+            return {"ok": True, "observed": "movement leaves the screen: not a case", "call": "-"}
+        st.feed("\x1b[%d;%dH" % (newr + 1, scr.cursor.x + 1))
+        ret = win.get_cursor_vertical_diff()
+        call = "%dx%d terminal, cursor on row %d; enter; render(%r, (%d, 0)); content moves %d rows; get_cursor_vertical_diff()" % (h, w, r0, rows, cr, k)
+        ok = (win.top_usable_row - top_before) + ret == k and win._last_cursor_row == newr and win.top_usable_row >= 0
+        return {"ok": ok, "observed": "top_usable_row %d -> %d, returned %d, baseline now %r" % (top_before, win.top_usable_row, ret, win._last_cursor_row),
+                "expected": "change of top_usable_row + returned value == %d (the cursor was on row %d after the render and is on row %d now)" % (k, row_after, newr),
+                "call": call}
+    finally:
+        cw.Cbreak = orig
+
+
 # ---------------------------------------------------------------- concrete twin (plain CPython)
 def concrete(fn, params, args):
     import os
@@ -250,6 +382,8 @@ def concrete(fn, params, args):
     from curtsies.window import CursorAwareWindow
     P.clear()
     P.update(params)
+    if fn == "render_diff":
+        return _concrete_render_diff(params, args)
     w = CursorAwareWindow(out_stream=io.StringIO(), in_stream=io.StringIO(), hide_cursor=False)
     if fn == "parse":
         (sel, e0, e1, e2, t0) = args
